@@ -15,6 +15,7 @@ import Propka.Model.Coupling
 import Propka.Model.ResList
 import Propka.Model.ScoringDriver
 import Propka.Model.SetupDriver
+import Propka.Model.PipelineDriver
 /-! Line-protocol driver: one request per line `<module> <args…>`, one response line each. -/
 open Propka
 
@@ -39,6 +40,7 @@ def dispatch (ws : List String) : String :=
   | "reslist" :: r => ResList.handle r
   | "scoring" :: r => Scoring.handle r
   | "setup" :: r => Setup.handle r
+  | "pipe" :: r => Pipe.handle r
   | ["ping"] => "pong"
   | _ => "bad-op"
 
